@@ -8,6 +8,7 @@ require (
 	github.com/valyala/fasthttp v1.60.0
 	pgregory.net/rapid v1.3.0
 	verifh v0.0.0
+	early.verif v0.0.0 // indirect
 )
 
 require (
@@ -33,3 +34,5 @@ replace github.com/ja7ad/otp => /repo
 replace github.com/ja7ad/otp/internal/app => /repo/internal/app
 
 replace verifh => ../h
+
+replace early.verif => ../h/early
